@@ -136,6 +136,10 @@ func init() {
 				mk(c38Expect{Cmd: "!match", Args: []string{pat}, Want: nm, Strict: strict && len(nm) > 0, Pair: "!match"})
 				k := 1 + r.Intn(4)
 				ascii := isASCII(in)
+				// parameters of prefix / suffix: plain text and text that would mean something to a
+				// formatter, a regexp or the shell if it were ever interpreted (single-quoted in the program)
+				fix := []string{"P-", "-S", "100% ", "%d", "%", "%%", "%s%s", "\\", "$x", "a b", "日", ".*", "[", "\\n"}
+				fp, fs := fix[r.Intn(len(fix))], fix[r.Intn(len(fix))]
 				var lft, rgt, pre, suf []string
 				for _, s := range in {
 					if len(s) <= k {
@@ -143,12 +147,12 @@ func init() {
 					} else {
 						lft, rgt = append(lft, s[:k]), append(rgt, s[len(s)-k:])
 					}
-					pre, suf = append(pre, "P-"+s), append(suf, s+"-S")
+					pre, suf = append(pre, fp+s), append(suf, s+fs)
 				}
 				mk(c38Expect{Cmd: "left", Args: []string{fmt.Sprint(k)}, Want: lft, Strict: strict && ascii})
 				mk(c38Expect{Cmd: "right", Args: []string{fmt.Sprint(k)}, Want: rgt, Strict: strict && ascii})
-				mk(c38Expect{Cmd: "prefix", Args: []string{"P-"}, Want: pre, Strict: strict})
-				mk(c38Expect{Cmd: "suffix", Args: []string{"-S"}, Want: suf, Strict: strict})
+				mk(c38Expect{Cmd: "prefix", Args: []string{fp}, Want: pre, Strict: strict})
+				mk(c38Expect{Cmd: "suffix", Args: []string{fs}, Want: suf, Strict: strict})
 			}
 			x.RunAll(pool, cases)
 		},
